@@ -263,6 +263,46 @@ func vpH_C11_T_stop_vs_expiry() {
 	vpAssert("C08.demote-once-per-edge", s.cb.promotes == 1 && s.cb.demotes == 1) // one term, ended once (by the stop or by the expiry)
 }
 
+// vpH_C11_T_late_notify: nats.go takes the handler's value when it QUEUES a notification on its dispatcher
+// (`cb := nc.Opts.ReconnectedCB; ...; nc.ach.push(func() { cb(nc) })`), so a notification queued before the
+// monitor's Stop unregistered the handlers is still delivered after a completed Stop / StopWithContext
+// (which, unlike Stop, also clears the election's context). Any one or two late notifications, with or
+// without an outage before the stop: nothing crashes, nothing is issued to the store, no claim.
+func vpH_C11_T_late_notify() {
+	H := time.Second
+	s := vpConnInstance(H, 2*H, nil)
+	s.kv.opLeft = 40
+	dcb, rcb, ccb := s.conn.Opts.DisconnectedCB, s.conn.Opts.ReconnectedCB, s.conn.Opts.ClosedCB
+	variant := vpChoose("variant", 2)
+	if vpChoose("outage-before-stop", 2) == 1 {
+		s.notify(0)
+	}
+	_ = vpDoStop(s.e, variant)
+	vpQuiesce()
+	opsAtRet := len(s.st.issued)
+	n := 1 + vpChoose("late-notifications", 2)
+	for i := 0; i < n; i++ {
+		switch vpChoose("late-kind", 3) {
+		case 0:
+			vpEvent("late-notify", "D")
+			dcb(s.conn)
+		case 1:
+			vpEvent("late-notify", "R")
+			rcb(s.conn)
+		case 2:
+			vpEvent("late-notify", "C")
+			ccb(s.conn)
+		}
+	}
+	time.Sleep(2*H + 6*time.Second)
+	vpQuiesce()
+	vpCover("C11.late-notify")
+	vpAssert("C11.no-deadlock", vpDeadlocked() == "")
+	vpAssert("C11.threads-end", vpThreadsAlive() == 0)
+	vpAssert("C09.no-op-after-stop", len(s.st.issued) == opsAtRet)
+	vpAssert("C09.no-claim-after-stop", !s.e.IsLeader())
+}
+
 // vpH_C11_T_flapping_verify: the connection flaps while the verification started by the first reconnect is
 // still under way (the logger call it makes inside its critical section is a scheduling point): a second
 // disconnect, a change of ownership during that second outage, and a second reconnect notification are
